@@ -31,6 +31,7 @@ MEMSZ = 1 << 20
 TEXT, DATA, NDATA = 0x200, 0x2000, 48          # data window: 48 words at 0x2000 (first 32 initialised)
 PTR_SLOTS = range(40, 48)                        # window words that always hold valid pointers
 BASE, PTRS, CNTS = 28, (26, 27), (29, 30)
+AHI, WBASE = 23, (24, 25)                      # x23 = DATA + 2048 (second anchor); x24/x25 = bases computed as target - displacement
 
 # =============================================================================================== (a) checksum
 def cksum_boundary():
@@ -201,6 +202,7 @@ def resolve(flat):
     if it[0] == 'L': asm.append(f'{it[1]}:'); continue
     op = it[0]
     if op == 'bne':
+      if not -4096 <= sym[it[3]] - addr <= 4094: raise GenSimError('branch offset not encodable')
       ins.append(('bne', it[1], it[2], sym[it[3]] - addr)); asm.append(f'  bne x{it[1]}, x{it[2]}, {it[3]}')
     else:
       ins.append(it)
@@ -262,11 +264,14 @@ def gensim(ins, data, inputs, rng=None, limit=20000):
     elif op in ('lw', 'sw'):
       a = (R[i[2]] + i[3]) & M32
       if a % 4 or not (DATA <= a < DATA + 4 * NDATA): raise GenSimError(f'{op} address {a:#x} outside the data window')
+      F(f'{op}-disp-' + ('ge1024' if i[3] >= 1024 else 'lt-1024' if i[3] < -1024 else 'small'))
+      if i[3] % 4: F(f'{op}-unaligned-base')
       if op == 'lw': wr = (i[1], mem.get(a, 0)); isld = True
       else: mem[a] = R[i[1]]
     elif op == 'bne':
       if R[i[1]] != R[i[2]]:
         npc = pc + i[3]; F('branch-taken-backward' if i[3] < 0 else 'branch-taken-forward')
+        if abs(i[3]) >= 1024: F('branch-taken-offset-' + ('ge2048' if i[3] >= 2048 else 'ge1024' if i[3] > 0 else 'lt-2048' if i[3] < -2048 else 'le-1024'))
         for k in (1, 2):                       # what sits in the two fetch slots behind a taken branch
           j = (pc - TEXT) // 4 + k
           if j < len(ins): F('squashed-' + ins[j][0])
@@ -288,8 +293,29 @@ def gensim(ins, data, inputs, rng=None, limit=20000):
           'feats': feats, 'end': end}
 
 # ---- random program generator
-def gen_tree(rng, size):
-  pool = rng.sample(range(1, 26), rng.randint(3, 8))
+def field_value(rng, nbits, step=1):
+  """a signed nbits-wide field value from the FULL encodable range, emphasising the boundaries of every bit:
+     min, max, 0, +-1, +-2^k, +-2^k -+ 1, alternating sign-bit patterns, and uniform values (multiples of step)"""
+  lo, hi = -(1 << (nbits - 1)), (1 << (nbits - 1)) - 1
+  k = rng.random()
+  if k < 0.15: v = rng.choice([lo, lo + 1, hi, hi - 1, 0, 1, -1, 2, -2])
+  elif k < 0.65:
+    p = 1 << rng.randrange(0, nbits - 1)
+    v = rng.choice([p, p - 1, p + 1, -p, -p - 1, -p + 1])
+  elif k < 0.72:
+    pat = int(('01' * nbits)[:nbits], 2)
+    v = rng.choice([pat, pat >> 1, ~pat, ~(pat >> 1), hi >> 1, ~(hi >> 1), (hi >> 1) + 1, lo >> 1])
+    v = ((v - lo) % (1 << nbits)) + lo
+  elif k < 0.85: v = rng.randint(-40, 40)
+  else: v = rng.randint(lo, hi)
+  v = min(hi, max(lo, v))
+  return v - (v % step) if step > 1 else v
+
+FAR_SIZES = [15, 31, 63, 127, 255, 510, 511, 512, 513]
+
+def gen_tree(rng, size, far=None):
+  """far: None | ('if', N) | ('loop', N): one branch over / around N straight-line instructions (branch offset +-4(N+1))"""
+  pool = rng.sample(range(1, 23), rng.randint(3, 8))
   recent = []
   def src(extra=True):
     k = rng.random()
@@ -301,10 +327,22 @@ def gen_tree(rng, size):
     r = 0 if rng.random() < 0.05 else rng.choice(pool)
     return r
   def imm12():
-    k = rng.random()
-    if k < 0.3: return rng.choice([-2048, 2047, -1, 0, 1, 31, 32, -32, 4, -4])
-    if k < 0.6: return rng.randint(-40, 40)
-    return rng.randint(-2048, 2047)
+    return field_value(rng, 12)
+  def wide(store=None, shadow=False):
+    """base := target - displacement, then the access: displacement from the whole 12-bit range, address inside the window"""
+    if store is None: store = rng.random() < (0.65 if shadow else 0.5)
+    while True:
+      t = rng.randrange(0, 40 if store else NDATA); d = field_value(rng, 12)
+      k, anchor = 4 * t - d, BASE
+      if k > 2047: k, anchor = k - 2048, AHI
+      if -2048 <= k <= 2047: break
+    b = rng.choice(WBASE)
+    seq = [('i', ('addi', b, anchor, k))]
+    for _ in range(rng.choice([0, 0, 0, 1, 2])): seq.append(simple(shadow))
+    seq.append(('i', ('sw', src(), b, d)) if store else ('i', ('lw', dst(), b, d)))
+    if not store and seq[-1][1][1] in pool: recent.append(seq[-1][1][1])
+    if not store and rng.random() < 0.4: seq.append(('i', ('csrw', seq[-1][1][1])))
+    return seq
   def memref(store):
     """(base reg, imm) of a legal aligned address; stores avoid the pointer slots"""
     if rng.random() < 0.5:
@@ -343,8 +381,16 @@ def gen_tree(rng, size):
       if a != b: pre = [('i', ('add', b, a, 0))]; recent.append(b)           # copy then compare: not taken, RAW on the branch operand
     elif k < 0.55: a, b = src(False), 0
     else: a, b = src(), src()
-    body = [simple(shadow=True) for _ in range(rng.randint(1, 4))]
+    body = []
+    for _ in range(rng.randint(1, 4)):
+      if rng.random() < 0.2: body += wide(shadow=True)
+      else: body.append(simple(shadow=True))
     return pre + [('if', a, b, body)]
+  def straight(n):
+    out = []
+    while len(out) < n:
+      out += wide() if rng.random() < 0.1 else [simple()]
+    return out[:n]
   def block(n, depth):
     out = []
     while n > 0:
@@ -359,7 +405,8 @@ def gen_tree(rng, size):
           seq.append(('i', ('csrr', dst())) if rng.random() < 0.5 else ('i', ('csrw', src())))
           if seq[-1][1][0] == 'csrr' and seq[-1][1][1] in pool: recent.append(seq[-1][1][1])
         out += seq; n -= len(seq)
-      elif k < 0.36:                                                          # pointer chasing: a loaded value is the next address
+      elif k < 0.42: out += wide(); n -= 2                                  # full-range displacement load/store
+      elif k < 0.48:                                                          # pointer chasing: a loaded value is the next address
         p = rng.choice(PTRS)
         seq = [('i', ('lw', p, BASE, 4 * rng.choice(PTR_SLOTS)))]
         for _ in range(rng.choice([0, 0, 1, 2])): seq.append(simple())
@@ -374,7 +421,17 @@ def gen_tree(rng, size):
     prologue.append(('i', ('csrr', r)) if rng.random() < 0.7 else ('i', ('addi', r, 0, imm12())))
   for p in PTRS: prologue.append(('i', ('addi', p, BASE, 64 + 4 * rng.randrange(16))))
   for c in CNTS: prologue.append(('i', ('addi', c, 0, 0)))
+  prologue += [('i', ('addi', AHI, BASE, 2047)), ('i', ('addi', AHI, AHI, 1))]
   body = block(size, 0)
+  if far:
+    cut = rng.randrange(len(body) + 1)
+    if far[0] == 'if':
+      k = rng.random()
+      a, b = (src(False),) * 2 if k < 0.35 else (src(False), 0) if k < 0.5 else (src(), src())
+      node = ('if', a, b, straight(far[1]))
+    else:
+      node = ('loop', CNTS[0], rng.choice([1, 2, 2]), straight(far[1]))
+    body = body[:cut] + [node] + body[cut:]
   regs = list(pool) + list(PTRS)
   rng.shuffle(regs)
   epilogue = [('i', ('csrw', r)) for r in regs] + [('i', ('csrw', 0))]
@@ -629,14 +686,19 @@ def run_procs(ctx):
   for k in range(nprog):
     prng = __import__('random').Random(rng.getrandbits(64))
     size = prng.choice([10, 25, 50, 80, 120, 160])
+    far = None
+    if prng.random() < 0.2:
+      kind = prng.choice(['if', 'if', 'loop'])
+      far = (kind, prng.choice(FAR_SIZES + ([1021, 1022] + ([1023] if kind == 'loop' else []) if not quick else [])))   # +4092 / -4096 are the extreme offsets
+      size = prng.choice([6, 12, 25])
     for attempt in range(20):
-      tree = gen_tree(prng, size)
+      tree = gen_tree(prng, size, far)
       data = gen_data(prng)
       try:
         prog = build(tree, data, [DATA], prng)
       except GenSimError:
         continue
-      if prog['ref']['dyn'] <= 2500: break
+      if prog['ref']['dyn'] <= 3000: break
     else:
       raise RuntimeError('generator could not produce a legal terminating program')
     cfgs = [gen_config(prng, 'fast')] + [gen_config(prng, 'any') for _ in range(ncfg - 1)]
